@@ -159,8 +159,11 @@ func vio(class, format string, a ...interface{}) []seqmc.Violation {
 
 // run drives a generator (with the sync marker injected as the fake target
 // does) for up to horizon Next calls.
-func run(c cfgCase) ([]*fpb.Value, bool, error) {
-	q := queue.New(false, c.seed, c.values())
+func run(c cfgCase) ([]*fpb.Value, bool, error) { return runWith(c, c.values()) }
+
+// runWith drives a generator built from the given configuration objects.
+func runWith(c cfgCase, vals []*fpb.Value) ([]*fpb.Value, bool, error) {
+	q := queue.New(false, c.seed, vals)
 	q.Add(&fpb.Value{Timestamp: &fpb.Timestamp{Timestamp: q.Latest()}, Repeat: 1, Value: &fpb.Value_Sync{Sync: 1}})
 	var out []*fpb.Value
 	for i := 0; i < horizon; i++ {
@@ -363,6 +366,18 @@ func specGrid(tier string) seqmc.Spec {
 		}
 		if render(a) != render(b) || (erra == nil) != (errb == nil) {
 			return desc, true, vio("not-reproducible", "%v: two generators from equal configurations and the same seed emitted different sequences", c)
+		}
+		// ... and two generators built one after the other from the SAME
+		// configuration object (as the fake agent does on every reset / Subscribe)
+		shared := c.values()
+		before := render(shared)
+		s1, _, e1 := runWith(c, shared)
+		s2, _, e2 := runWith(c, shared)
+		if render(s1) != render(s2) || (e1 == nil) != (e2 == nil) {
+			return desc, true, vio("not-reproducible-same-config-object", "%v: a second generator built from the same configuration object (after the first was drained) emitted a different sequence: first %d emissions, second %d", c, len(s1), len(s2))
+		}
+		if render(shared) != before {
+			return desc, true, vio("generator-mutates-configuration", "%v: running a generator modified the configuration it was built from", c)
 		}
 		// --- through the fake agent (finite configurations only)
 		finite := true
